@@ -42,6 +42,7 @@ class PyCdlibIO(io.RawIOBase):
         # type: (inode.Inode, int) -> None
         super(PyCdlibIO, self).__init__()  # pylint: disable=super-with-arguments
         self._ctxt = inode.InodeOpenData(ino, logical_block_size)
+        self._ino = ino
         self._open = True
 
     def __enter__(self):
@@ -53,6 +54,30 @@ class PyCdlibIO(io.RawIOBase):
         self._startpos = self._fp.tell()
         self._offset = 0
         return self
+
+    def _patch_boot_info_table(self, start, data):
+        # type: (int, bytes) -> bytes
+        """
+        Overlay the El Torito boot info table, which replaces bytes 8 to 64 of a
+        boot file that has one, on data read from this file.
+
+        Parameters:
+         start - The offset in the file that the data was read from.
+         data - The data that was read.
+        Returns:
+         The data as the file is recorded on the ISO.
+        """
+        table = self._ino.boot_info_table
+        if table is None:
+            return data
+
+        rec = table.record()[:max(0, self._length - 8)]
+        lo = max(start, 8)
+        hi = min(start + len(data), 8 + len(rec))
+        if lo >= hi:
+            return data
+
+        return data[:lo - start] + rec[lo - 8:hi - 8] + data[hi - start:]
 
     def read(self, size=None):
         # type: (Optional[int]) -> bytes
@@ -78,7 +103,8 @@ class PyCdlibIO(io.RawIOBase):
         else:
             readsize = min(self._length - self._offset, size)
             self._fp.seek(self._startpos + self._offset, 0)
-            data = self._fp.read(readsize)
+            data = self._patch_boot_info_table(self._offset,
+                                               self._fp.read(readsize))
             self._offset += readsize
 
         return data
@@ -100,7 +126,8 @@ class PyCdlibIO(io.RawIOBase):
         readsize = self._length - self._offset
         if readsize > 0:
             self._fp.seek(self._startpos + self._offset, 0)
-            data = self._fp.read(readsize)
+            data = self._patch_boot_info_table(self._offset,
+                                               self._fp.read(readsize))
             self._offset += readsize
         else:
             data = b''
@@ -118,7 +145,8 @@ class PyCdlibIO(io.RawIOBase):
             m = mv.cast('B')
             readsize = min(readsize, len(m))
             self._fp.seek(self._startpos + self._offset, 0)
-            data = self._fp.read(readsize)
+            data = self._patch_boot_info_table(self._offset,
+                                               self._fp.read(readsize))
             n = len(data)
             m[:n] = data
             self._offset += n
